@@ -17,6 +17,7 @@ hvars == <<vars, hist>>
 AllModes == {"ansi", "plain", "section", "quiet"}
 ModesAP == {"ansi", "plain"}
 ModesS == {"section", "quiet"}
+ModesAPS == {"ansi", "plain", "section"}
 OnlyAnsi == {"ansi"}
 OnlyPlain2 == {"plain"}
 FmtNormal == {"normal"}
@@ -28,6 +29,7 @@ W1 == {4}
 W3 == {1, 4, 10}
 Max4 == {0, 1, 3, 10}
 Max2 == {0, 3}
+MaxOne == {3}
 MaxBig == {50, 200}
 TicksQ == {0, 51, 2048}                                   \* 0, ~50 ms, 2 s
 TicksT == {0, 10, 51, 205, 2048}                          \* 0, ~10 ms, ~50 ms, ~200 ms, 2 s
@@ -35,15 +37,22 @@ StartQ == {-1, 3}                                         \* start() / start(3)
 StartOne == {-1}
 StartT == {-1, 0, 3, 10}
 AdvQ == {1, 2}
+AdvOne == {1}
 AdvBig == {1, 7, 29}
 SetQ == {-1, 2, 12}                                       \* below zero / inside / beyond the maximum
+SetTwo == {2, 12}
+SetNone == {}
+SetBig == {-1, 29, 58, 199, 250}
 NoMsgs == {}
 MsgsQ == {<<"m">>, <<"l", "o", "n", "g", "e", "r">>, <<>>}
 Pre == << <<"#", "#">> >>
+\* a multi-line format moves the cursor up before its very first frame as well (pinned by the repository's
+\* test_multiline_format) and so overwrites the line above the bar; the statement does not speak about other
+\* output, therefore two-line formats start on an empty screen here and in the recorded runs
 TermW == 60
 
 Cfg(mode, bw, gap, fmt, m) == [mode |-> mode, bw |-> bw, mingap |-> gap, maxgap |-> 1024, fmt |-> fmt, w |-> TermW,
-                               pre |-> Pre, max0 |-> m]
+                               pre |-> IF fmt = "two" THEN <<>> ELSE Pre, max0 |-> m]
 
 HInit == /\ \E mode \in MCModes, bw \in MCWidths, gap \in MCGaps, fmt \in MCFormats, m \in MCMax :
               InitWith(Cfg(mode, bw, gap, fmt, m))
